@@ -42,7 +42,10 @@ impl Interpreter {
                 self.state.clone()
             }
             ScriptBit::If { code, pass, fail } => {
-                let predicate = self.state.stack.pop_bool()?;
+                // Evaluate the predicate on a copy so that a failing step leaves the last good state intact
+                let mut next_stack = self.state.stack.clone();
+                let predicate = next_stack.pop_bool()?;
+                self.state.stack = next_stack;
                 self.state.executed_opcodes.push(*code);
 
                 if predicate {
